@@ -23,6 +23,9 @@ pub struct WxmlCfg {
     /// probability weight of dynamic values (out of 10)
     pub dyn_weight: u32,
     pub rich_text: bool,
+    /// scope names that are no identifiers (`list-item`, ` x `, empty) or unusual ones (`row$`): reported with a note, and
+    /// still scopes (C05)
+    pub odd_scope_names: bool,
 }
 
 pub fn all_families() -> Vec<AttrKind> {
@@ -55,7 +58,7 @@ impl WxmlCfg {
         e.small_numbers = true;
         e.instanceof = false;
         e.spread_ident = false;
-        WxmlCfg { depth, max_kids: 4, expr: e, tis: true, include: true, slot: true, wxs: true, slot_refs: false, dyn_tags: false, comments: true, families: all_families(), dyn_weight: 6, rich_text: true }
+        WxmlCfg { depth, max_kids: 4, expr: e, tis: true, include: true, slot: true, wxs: true, slot_refs: false, dyn_tags: false, comments: true, families: all_families(), dyn_weight: 6, rich_text: true, odd_scope_names: false }
     }
 }
 
@@ -73,6 +76,7 @@ pub const EXTRA_NAMES: &[&str] = &["e1", "foo"];
 pub const TEMPLATE_NAMES: &[&str] = &["t1", "t2", "t3"];
 pub const ITEM_NAMES: &[&str] = &["it", "x", "a", "list", "item2", "index"];
 pub const INDEX_NAMES: &[&str] = &["idx", "i", "b", "item", "k"];
+pub const ODD_SCOPE_NAMES: &[&str] = &["row$", "i$", "list-item", " x ", "a b", "7up"];
 pub const MODULE_NAMES: &[&str] = &["mod", "m", "tools", "a"];
 pub const KEYS: &[&str] = &["id", "*this", "v", "k0"];
 
@@ -293,7 +297,9 @@ pub fn node(cfg: &WxmlCfg, depth: u32) -> BoxedStrategy<Node> {
             Node::If(brs)
         })
         .boxed();
-    let for_ = (for_list(cfg), proptest::option::weighted(0.4, pick(ITEM_NAMES)), proptest::option::weighted(0.4, pick(INDEX_NAMES)), proptest::option::weighted(0.5, pick(KEYS)), kids.clone(), carrier())
+    let (item_names, index_names): (BoxedStrategy<String>, BoxedStrategy<String>) =
+        if cfg.odd_scope_names { (prop_oneof![3 => pick(ITEM_NAMES), 1 => pick(ODD_SCOPE_NAMES)].boxed(), prop_oneof![3 => pick(INDEX_NAMES), 1 => pick(ODD_SCOPE_NAMES)].boxed()) } else { (pick(ITEM_NAMES), pick(INDEX_NAMES)) };
+    let for_ = (for_list(cfg), proptest::option::weighted(0.4, item_names), proptest::option::weighted(0.4, index_names), proptest::option::weighted(0.5, pick(KEYS)), kids.clone(), carrier())
         .prop_map(|(list, item, index, key, kids, carrier)| {
             // item and index must differ (the same name twice is a shadowing of item by index; allowed but confusing — keep)
             Node::For(Box::new(ForNode { list, item, index, key, kids, carrier }))
